@@ -60,3 +60,8 @@ pub use crate::tracker_client::TrackerClient;
 pub use crate::tracker_resp::TrackerResp;
 
 pub use crate::session::Session;
+
+// Verification hooks (harnesses live in /verif/hooks); inert unless built with --cfg rdest_verif or by cargo-kani
+#[cfg(any(kani, rdest_verif))]
+#[path = "/verif/hooks/lib.rs"]
+mod verif_hooks;
